@@ -1529,6 +1529,12 @@ static int state_check_process(struct snapraid_state* state, int fix, struct sna
 					/* LCOV_EXCL_STOP */
 				}
 
+				/* remove what is wrongly there, instead of truncating it in place, */
+				/* because it may be another name (hardlink) of a different file */
+				/* that has to keep its data, or a link that cannot be opened */
+				/* ignore errors, as the following open will fail anyway */
+				remove(path);
+
 				/* create it */
 				/* O_NOFOLLOW: do not follow links to ensure to open the real file */
 				f = open(path, O_WRONLY | O_CREAT | O_TRUNC | O_BINARY | O_NOFOLLOW, 0600);
